@@ -142,7 +142,7 @@ def C03(ctx):
     ctx.rules.append('family T: the result type is a named type / an alias of each of 20 Go type kinds (zero value on the error path per kind), variadic injector; '
                      'chains of 12 (quick) / 12 and 25 (thorough) cleanup+error providers (more than ten generated cleanup names) failing at the first, middle and last provider')
     extra = ctx.export('FamilyT(p)') + ctx.export('FamilyChain(p, {12})' if ctx.quick else 'FamilyChain(p, {11, 12, 25})') \
-        + ctx.export('FamilyX(p, {"variadic-err-provider"})')
+        + ctx.export('FamilyX(p, {"variadic-err-provider", "iface-result-bound-to-value-struct"})')
     ctx.rules.append('family R2: chains whose links are a direct parameter, an interface binding, a wire.Struct pointer or a FieldsOf selection (4^(n-1) link assignments x 4^n flavours; n=3 sampled quick / complete thorough, n=4 sampled thorough): failures and cleanups interleaved with steps that are not provider calls')
     r2 = ctx.export('FamilyR2(p, 3)', pre_sample=200 if ctx.quick else None)
     if not ctx.quick:
